@@ -285,6 +285,7 @@ type c10Env struct {
 	execs  int
 	finals []string // final (non-retried) injected errors in time order, "i:k"
 	wfinal []string // the worker-reported ones among them
+	propMissing []string // executions whose context lacks PropInitialSnapshot
 	perTx  []int    // execute calls per tx
 	succ   []int    // successful attempt per tx or -1
 	ev     chan c10Ev
@@ -436,6 +437,14 @@ func (h *c10Handler) Execute(ctx contract.Context, wcs state.WorldSnapshot, esti
 	e.mu.Lock()
 	e.execs++
 	e.perTx[t.idx]++
+	// the per-transaction contract context must carry transition.initialSnapshot: under a
+	// revision with LegacyBalanceCheck() the real transactionHandler.Execute does
+	// cc.GetProperty(contract.PropInitialSnapshot).(state.WorldSnapshot) on it (nil -> panic)
+	if v := ctx.GetProperty(contract.PropInitialSnapshot); v == nil {
+		e.propMissing = append(e.propMissing, fmt.Sprintf("%d:%d", t.idx, h.att))
+	} else if _, ok := v.(state.WorldSnapshot); !ok {
+		e.propMissing = append(e.propMissing, fmt.Sprintf("%d:%d(wrong type)", t.idx, h.att))
+	}
 	e.mu.Unlock()
 	msg := fmt.Sprintf("c10:%d:%d", t.idx, h.att)
 	switch t.code(h.att) {
@@ -882,6 +891,10 @@ func c10Oracle(o *Oracle, e *c10Env, n int, buf []txresult.Receipt, err error, w
 			}
 		}
 	}
+	e.mu.Lock()
+	pm := append([]string{}, e.propMissing...)
+	e.mu.Unlock()
+	o.Check(len(pm) == 0, mode+"-legacy-balance-check-panics", "%s: level=%d: the contract context handed to the handler of tx:attempt %v has no %s property; transactionHandler.Execute type-asserts it to state.WorldSnapshot under a LegacyBalanceCheck revision (panic in the executing goroutine), the other executor mode provides it", where, e.level, pm, contract.PropInitialSnapshot)
 	for i, c := range perTx {
 		o.Check(c <= service.VerifC10RetryCount+1, mode+"-retry-bound", "%s: tx %d executed %d times", where, i, c)
 	}
